@@ -161,6 +161,11 @@ func scalarVal(n *Node, v interface{}) (string, JSONKind, string) {
 			}
 			return fmt.Sprintf("f:%08x", math.Float32bits(float32(f))), "string", ""
 		}
+		if n.Type == "bool" && (x == "true" || x == "false") {
+			// (as for the numeric types, the JSON kind is reported, not judged here: a key that a document shows
+			// only because it identifies its entry is rendered from the path's text)
+			return "b:" + x, "string", ""
+		}
 		return "?:" + x, "string", "string for " + n.Type
 	case json.Number:
 		switch n.Type {
